@@ -37,6 +37,22 @@ class CGen(G.ProgGen):
             self.emit("e2 begin %d ro" % i)
             self.emit("e2 scan %d - ~ f" % i)
             self.tx[i] = dict(mode="ro", closed=False, curs=set())
+            if rng.random() < 0.6:
+                # isolation right after the restore: a writer that began together with the reader, a commit by
+                # another writer, then the reader re-reads the key and the first writer tries to commit it too
+                k = rng.choice(self.keys)
+                w1, w2 = self.next_tx, self.next_tx + 1
+                self.next_tx += 2
+                self.emit("e2 begin %d rw" % w1)
+                self.emit("e2 begin %d rw" % w2)
+                self.emit("e2 set %d %s %s" % (w2, k, self.val()))
+                self.emit("e2 commit %d" % w2)
+                self.emit("e2 get %d %s" % (i, k))
+                self.emit("e2 get %d %s" % (w1, k))
+                self.emit("e2 set %d %s %s" % (w1, k, self.val()))
+                self.emit("e2 commit %d" % w1)
+                self.emit("e2 drop %d" % w1)
+                self.emit("e2 drop %d" % w2)
         elif r < 0.17 and self.ckpts:
             self.emit("e2 ckptscan %d" % rng.choice(self.ckpts))
         else:
